@@ -58,15 +58,15 @@ type loopInfo struct {
 
 // Enc is the per-function encoder.
 type Enc struct {
-	heldNamed []Term // mutex addresses named by held(...) in the requires clauses
-	woCache map[*ssa.Alloc]*ssa.Store
-	frozenNames map[string]bool
-	debugSeen map[*ssa.DebugRef]int // execution order of the DebugRef instructions processed so far
-	debugSeq  int
-	nfTaint map[string]Term // constant name -> condition under which its value may be non-finite (Inf/NaN)
-	privateChans []Term // channels made here (or captured write-once) that only this function and its closures receive from / close
-	fvConst map[string]Term // address term of a write-once captured variable -> its value
-	unmarshalled bool // a decoder havocked every heap: heaps first touched later are unconstrained too (they are anyway)
+	heldNamed    []Term // mutex addresses named by held(...) in the requires clauses
+	woCache      map[*ssa.Alloc]*ssa.Store
+	frozenNames  map[string]bool
+	debugSeen    map[*ssa.DebugRef]int // execution order of the DebugRef instructions processed so far
+	debugSeq     int
+	nfTaint      map[string]Term // constant name -> condition under which its value may be non-finite (Inf/NaN)
+	privateChans []Term          // channels made here (or captured write-once) that only this function and its closures receive from / close
+	fvConst      map[string]Term // address term of a write-once captured variable -> its value
+	unmarshalled bool            // a decoder havocked every heap: heaps first touched later are unconstrained too (they are anyway)
 	prog         *Prog
 	fn           *ssa.Function
 	fc           *FuncContract
